@@ -648,6 +648,7 @@ func (s *AbsfsNFS) RemoveWithContext(ctx context.Context, dir *NFSNode, name str
 	if err != nil {
 		return fmt.Errorf("remove: failed to remove %s: %w", path, err)
 	}
+	s.exclusiveVerf.Delete(path)
 	// Invalidate caches
 	s.attrCache.Invalidate(path)
 	s.attrCache.Invalidate(dir.path)
@@ -710,6 +711,8 @@ func (s *AbsfsNFS) RenameWithContext(ctx context.Context, oldDir *NFSNode, oldNa
 		return fmt.Errorf("rename: failed to rename %s to %s: %w", oldPath, newPath, err)
 	}
 	// Invalidate caches and negative cache entries
+	s.exclusiveVerf.Delete(oldPath)
+	s.exclusiveVerf.Delete(newPath)
 	// A renamed directory takes its descendants with it: drop everything cached below both names
 	s.attrCache.InvalidateTree(oldPath)
 	s.attrCache.InvalidateTree(newPath)
